@@ -68,7 +68,7 @@ theorem deallocLw_spec {s : St} (hI : Inv s) {off len : Nat} (hlen : 0 < len) (h
   generalize hs1 : ({ s with bits := setRange s.bits off len false } : St) = s1 at hsb
   have hb1 : s1.bits = setRange s.bits off len false := by rw [← hs1]
   have ht1 : s1.tree = s.tree := by rw [← hs1]
-  have hf1 : Frame s s1 := by rw [← hs1]; exact ⟨rfl, rfl, rfl, rfl, rfl, rfl, rfl, rfl, rfl⟩
+  have hf1 : Frame s s1 := by rw [← hs1]; exact ⟨rfl, rfl, rfl, rfl, rfl, rfl⟩
   have hlfo : s1.lfoff = s.lfoff := by rw [← hs1]
   have hlfl : s1.lflen = s.lflen := by rw [← hs1]
   have hsz1 : s1.bits.size = nbits s1 := by rw [hb1, size_setRange, hI.size, hf1.nbits]
@@ -172,5 +172,33 @@ theorem deallocLw_spec {s : St} (hI : Inv s) {off len : Nat} (hlen : 0 < len) (h
     · rintro (⟨a, b⟩ | ⟨c, b, a⟩)
       · exact Or.inl ⟨a, b⟩
       · exact Or.inr ⟨a, b, c⟩
+
+/-- the reserved-block part of the invariant and the geometry facts carry over to a state with the same geometry
+    whose bitmap keeps the reserved blocks set -/
+theorem Inv.of_frame {s s' : St} (hI : Inv s) (hf : Frame s s') (hix : IdxOk s') (hsz : s'.bits.size = s.bits.size)
+    (hkeep : ∀ i, (i < hdrBlk s ∨ (bmOffBlk s ≤ i ∧ i < bmOffBlk s + bmLenBlk s)) → bit s'.bits i = true) : Inv s' where
+  ix := hix
+  size := by rw [hsz, hI.size, hf.nbits]
+  hdr := by rw [hf.hdrBlk]; exact ⟨hI.hdr.1, fun i h => hkeep i (Or.inl h)⟩
+  bm := by rw [hf.bmOffBlk, hf.bmLenBlk]; exact fun i h1 h2 => hkeep i (Or.inr ⟨h1, h2⟩)
+  hb := by rw [hf.hdrBlk, hf.bmOffBlk]; exact hI.hb
+  bm_in := by rw [hf.bmOffBlk, hf.bmLenBlk, hf.nbits]; exact hI.bm_in
+  bmoff_al := by rw [hf.bmoff, hf.bsz]; exact hI.bmoff_al
+  bmlen_al := by rw [hf.bmlen, hf.bsz]; exact hI.bmlen_al
+  au := by rw [hf.aunitBlk]; exact hI.au
+
+/-- release of an allocated range outside header and bitmap preserves the invariant -/
+theorem inv_deallocLw {s : St} (hI : Inv s) {off len : Nat} (hlen : 0 < len) (hend : off + len ≤ nbits s)
+    (hset : ∀ i, off ≤ i → i < off + len → bit s.bits i = true) (hoff : hdrBlk s ≤ off)
+    (hbm : off + len ≤ bmOffBlk s ∨ bmOffBlk s + bmLenBlk s ≤ off) : Inv (deallocLw s off len).1 := by
+  obtain ⟨_, hb, hf, hix⟩ := deallocLw_spec hI hlen hend hset hoff
+  apply hI.of_frame hf hix (by rw [hb, size_setRange])
+  intro i hi
+  rw [hb, bit_setRange]
+  have : ¬ (off ≤ i ∧ i < off + len ∧ i < s.bits.size) := by omega
+  rw [if_neg this]
+  rcases hi with h | h
+  · exact hI.hdr.2 i h
+  · exact hI.bm i h.1 h.2
 
 end IwModel.Fsm
